@@ -300,6 +300,34 @@ func runC11(c *Ctx) {
 				bad = "a received server message is not serialised into the reply at " + p.Pos(op.Instr.Pos())
 			}
 		}
+		// appended at the END: the serialised message is in the variadic tail, the accumulated slice is the first argument
+		EachInstr(rs, func(i ssa.Instruction) {
+			call, ok := i.(*ssa.Call)
+			if !ok {
+				return
+			}
+			if b, isB := call.Call.Value.(*ssa.Builtin); !isB || b.Name() != "append" {
+				return
+			}
+			tail, _ := DerivesFrom(call.Call.Args[1], func(v ssa.Value) bool {
+				cc, isC := v.(*ssa.Call)
+				return isC && CalleeName(cc.Common()) == "(*"+pkg+".message).Serialize"
+			}, func(ssa.Value) bool { return false })
+			head, _ := DerivesFrom(call.Call.Args[0], func(v ssa.Value) bool {
+				cc, isC := v.(*ssa.Call)
+				return isC && CalleeName(cc.Common()) == "(*"+pkg+".message).Serialize" && !InLoop(cc.Block()) && false
+			}, func(ssa.Value) bool { return false })
+			_ = head
+			// the first argument must not be a fresh literal holding the new message (prepend)
+			if sl, isS := call.Call.Args[0].(*ssa.Slice); isS {
+				if _, isA := sl.X.(*ssa.Alloc); isA {
+					bad = "a received message is prepended (append([]{new}, old...)) at " + p.Pos(i.Pos()) + ": messages are delivered in reverse order"
+				}
+			}
+			if !tail {
+				bad = "an append at " + p.Pos(i.Pos()) + " does not add the serialised message at the end of the accumulated slice"
+			}
+		})
 		// returned slice derives from appends only
 		for _, r := range Returns(rs) {
 			v := ReturnValue(r, 0)
